@@ -239,7 +239,7 @@ def run_shard(spec):
 
 def check_floors(counters, evaluations, tier):
     msgs = []
-    for key, frac in (('multi-watcher-sequence', 0.3),
+    for key, frac in (('multi-watcher-sequence', 0.25),
                       ('death-during-sequence', 0.14),
                       ('autostart-off', 0.1)):
         if counters.get(key, 0) < frac * evaluations:
